@@ -127,6 +127,9 @@ type DrawOpts struct {
 	OnlyPkgs  []string // restrict to these corpus packages (nil = all)
 	MinMuts   int
 	NoKernels bool
+	// FreshCorpus re-loads a chosen corpus package instead of using the per-process cached
+	// (shared, hence corruptible by a mutating checker) syntax tree.
+	FreshCorpus bool
 }
 
 // DrawProgram draws a well-typed program: a corpus package or generated kernel file, with
@@ -167,6 +170,9 @@ func DrawProgram(t *rapid.T, e *Env, o DrawOpts, onReject func(label, why string
 		}
 		ce := progs[rapid.IntRange(0, len(progs)-1).Draw(t, "corpusPkg")]
 		cur = ce.p
+		if o.FreshCorpus {
+			cur = e.Load(Sources(ce.p))
+		}
 		pc.Origin = "corpus:" + ce.Name()
 	}
 	muts := Mutators
